@@ -247,12 +247,14 @@ static bool setup(const char *spec)
 /* ------------------------------------------------------------------ the peer: an RFC 7692 client on plain zlib */
 static z_stream peer_def, peer_inf;
 static bool peer_cnc;
+static bool peer_snc; /* the answer contained server_no_context_takeover: the client may drop its inflate window after every message */
 
 static void peer_init(void)
 {
 	unsigned cmw = ws->extension_compression.client_max_window_bits;
 	unsigned smw = ws->extension_compression.server_max_window_bits;
 	peer_cnc = ws->extension_compression.client_no_context_takeover;
+	peer_snc = ws->extension_compression.server_no_context_takeover;
 	memset(&peer_def, 0, sizeof peer_def);
 	memset(&peer_inf, 0, sizeof peer_inf);
 	/* zlib cannot deflate raw with an 8 bit window: a peer bound to 256 bytes sends literals only */
@@ -288,6 +290,9 @@ static bool peer_inflate(const uint8_t *p, size_t n, struct wire *out)
 	uint8_t *in = malloc(n + 4);
 	if (n) memcpy(in, p, n);
 	in[n] = 0; in[n + 1] = 0; in[n + 2] = 0xff; in[n + 3] = 0xff;
+	/* RFC 7692 7.1.1.1: with server_no_context_takeover the server must not use earlier messages as context,
+	 * so a client is entitled to start every message with an empty window */
+	if (peer_snc) inflateReset(&peer_inf);
 	peer_inf.next_in = in; peer_inf.avail_in = (uInt)(n + 4);
 	uint8_t tmp[4096];
 	int r;
